@@ -42,10 +42,15 @@ DESCS = ["a", "b", "c", "d", "e", "A", "", "img.png", "é"]
 def gen_history(rng, length: int, backwards: bool = False) -> dict:
     ops = []
     lab = [0]
-    dts = DTS_FWD + ([-1, -1_000_000] if backwards else [])
+    fine = rng.random() < 0.5          # fine: clock moves by 0..2 us, age thresholds of a few us
+    dts = ([0, 1, 1, 2] if fine else DTS_FWD) + ([-1, -1_000_000] if backwards else [])
     strict = (not backwards) and rng.random() < 0.5      # no ties at all in half of the forward histories
     if strict:
         dts = [d for d in dts if d > 0]
+    mts = [0, 1, 2, 3, 5, 8] if fine else MTS + [3_600_000_001, 7_200_000_000]
+    big_sizes = rng.random() < 0.3
+    sizes = SIZES if big_sizes else [0, 1, 1, 2, 3]
+    mbs = MBS if big_sizes else [0, 1, 2, 3, 4, 5, 6, 7, 8]
 
     def add(**o):
         o["n"] = lab[0]
@@ -67,15 +72,28 @@ def gen_history(rng, length: int, backwards: bool = False) -> dict:
     terms = rng.sample(TERMS, rng.randint(1, 4))
     pool = rng.sample(DESCS, rng.randint(1, len(DESCS)))
     gets = []
-    recent_sizes = [1]
+    recent = []          # (id ref, term, size) of recent marks
 
     def an_id():
-        if gets and rng.random() < 0.93:
-            return {"ref": rng.choice(gets[-8:] if rng.random() < 0.7 else gets)}
+        if gets and rng.random() < 0.95:
+            return {"ref": rng.choice(gets[-6:] if rng.random() < 0.8 else gets)}
         sp, su = subs[0]
         off = 24 if sp[1] else (16 if sp[0] == 24 else 0)
         i = (rng.randint(max(1, su[0]), su[1] - 1) << off) | (1 if sp[0] == 8 and sp[1] else 0) | (0x100 if sp[0] == 24 else 0)
         return rng.choice([i, i, 0, 2**32])
+
+    def needs(i, term, z):
+        mu, mb, mt = 1024, 2 * MIB20 + 9, 10**13
+        r = rng.random()
+        if r >= 0.2:
+            probe = rng.sample(["mu", "mb", "mt"], 1 if r < 0.75 else 2)
+            if "mu" in probe:
+                mu = rng.choice(MUS)
+            if "mb" in probe:
+                mb = rng.choice(mbs + [max(0, z - 1), z, z + 1, 2 * z, 2 * z + 1])
+            if "mt" in probe:
+                mt = rng.choice(mts)
+        add(op="needs", id=i, term=term, mu=mu, mb=mb, mt=mt)
 
     for _ in range(2):
         sp, su = rng.choice(subs)
@@ -83,26 +101,31 @@ def gen_history(rng, length: int, backwards: bool = False) -> dict:
     for _ in range(length):
         r = rng.random()
         sp, su = rng.choice(subs)
-        if r < 0.22:
+        if r < 0.18:
             gets.append(add(op="get", sp=list(sp), su=list(su), d=rng.choice(pool)))
-        elif r < 0.50:
-            size = rng.choice(SIZES)
-            recent_sizes.append(size)
+        elif r < 0.46:
+            size = rng.choice(sizes)
             tm = None
-            if rng.random() < (0.15 if not strict else 0.0):
+            if rng.random() < (0.12 if not strict else 0.0):
                 tm = rng.choice([0, 0, 1, 1_000_000] + ([-1, -1_000_000] if backwards else []))
-            add(op="mark", id=an_id(), term=rng.choice(terms), size=size, time=tm)
-        elif r < 0.78:
-            z = rng.choice(recent_sizes[-4:])
-            mb = rng.choice(MBS + [max(0, z - 1), z, z + 1, 2 * z, 2 * z + 1])
-            add(op="needs", id=an_id(), term=rng.choice(terms), mu=rng.choice(MUS), mb=mb, mt=rng.choice(MTS))
+            i, term = an_id(), rng.choice(terms)
+            add(op="mark", id=i, term=term, size=size, time=tm)
+            recent.append((i, term, size))
+        elif r < 0.80:
+            if recent and rng.random() < 0.85:
+                i, term, z = rng.choice(recent[-5:])
+                if rng.random() < 0.1:
+                    term = rng.choice(terms)
+            else:
+                i, term, z = an_id(), rng.choice(terms), 1
+            needs(i, term, z)
         elif r < 0.86:
             add(op="upinfo", id=an_id(), term=rng.choice(terms))
-        elif r < 0.90:
+        elif r < 0.89:
             add(op="cleanup_uploads", keep=rng.choice([0, 1, 2, 3, 5, 10, 1024]))
-        elif r < 0.94:
+        elif r < 0.93:
             add(op="set", id=an_id(), d=rng.choice(pool))
-        elif r < 0.98:
+        elif r < 0.96:
             add(op="del", id=an_id())
         else:
             add(op="cleanup", sp=list(sp), su=list(su), max=rng.choice([0, 1, None]))
